@@ -41,7 +41,8 @@ theorem c40_same_path (lhs rhs : Obj) (sel : Sel) (ps : List Pair) (h : assign l
       Reach (root lhs rhs sel) c' ∧ c'.lp = q ∧ c'.rp = q ∧
       Chain c'.lc c'.lhs ul l ∧ Chain c'.R.1 c'.R.2 ur r ∧
       p.lpath = q ++ ul ∧ p.rpath = q ++ ur ∧ p.flow = flowOf c'.lc l c'.R.1 r ∧
-      p.checked = (isVC c'.lc l || isVC c'.R.1 r || ((c'.ls || explicit c'.lc l) && (c'.rs || explicit c'.R.1 r))) ∧
+      p.checked = (isVC c'.lc l || isVC c'.R.1 r ||
+        ((c'.ls || !ul.isEmpty || explicit c'.lc l) && (c'.rs || !ur.isEmpty || explicit c'.R.1 r))) ∧
       (p.checked = true → shapeEq (shapeOf c'.lc l) (shapeOf c'.R.1 r) = true) := by
   intro p hp
   obtain ⟨c', hreach, _, hleaf⟩ := c40_sound lhs rhs sel ps h p hp
@@ -52,16 +53,25 @@ theorem c40_same_path (lhs rhs : Obj) (sel : Sel) (ps : List Pair) (h : assign l
   exact ⟨c', q, l, ul, r, ur, hreach, e1, e2, unwrap_chain _ _ _ _ hl, unwrap_chain _ _ _ _ hr,
     by rw [hp1, e1], by rw [hp2, e2], hfl, hck, hsh⟩
 
--- OBLIGATION c40_shapes_partial : equal shapes - PARTIAL: added hypothesis "the shape check was made", which holds whenever an operand is a View/ArrayProxy or both are explicit-or-strict. The full statement (every statement whose right operand is not an int copies between equal shapes) is false of code and model: see the negation witness below (finding F-b7-1)
-theorem c40_shapes_partial (lhs rhs : Obj) (sel : Sel) (ps : List Pair) (h : assign lhs rhs sel = .ok ps) :
+-- OBLIGATION c40_shapes : equal shapes, full strength: every statement whose operands are not Python ints was shape-checked and copies between equal shapes - for all operands in which a value without explicit shape (the as_signed() operator of a signed member) occurs only as a member of a view (okE: true of everything Python can build from Signals, views, dicts, lists, Arrays and ints). Holds since /repo 744698a; before, the unwrapping loops lost the check (F-b7-1)
+theorem c40_shapes (lhs rhs : Obj) (sel : Sel) (ps : List Pair) (h : assign lhs rhs sel = .ok ps)
+    (hl : okE false lhs) (hr : okE false rhs) :
     ∀ p ∈ ps, ∃ (c' : Call) (l r : Obj) (ul ur : Path), Reach (root lhs rhs sel) c' ∧
-      unwrap c'.lc c'.lhs = .ok (l, ul) ∧ unwrap c'.R.1 c'.R.2 = .ok (r, ur) ∧
-      ((isVC c'.lc l || isVC c'.R.1 r || ((c'.ls || explicit c'.lc l) && (c'.rs || explicit c'.R.1 r))) = true →
-        shapeEq (shapeOf c'.lc l) (shapeOf c'.R.1 r) = true) := by
+      unwrap c'.lc c'.lhs = .ok (l, ul) ∧ unwrap c'.R.1 c'.R.2 = .ok (r, ur) ∧ p.flow = flowOf c'.lc l c'.R.1 r ∧
+      (isInt l = false → isInt r = false →
+        p.checked = true ∧ shapeEq (shapeOf c'.lc l) (shapeOf c'.R.1 r) = true) := by
   intro p hp
   obtain ⟨c', hreach, _, hleaf⟩ := c40_sound lhs rhs sel ps h p hp
-  obtain ⟨_, _, _, l, ul, r, ur, hl, hr, _, _, _, hck, hsh⟩ := leaf_spec _ _ _ _ _ _ _ _ _ p hleaf
-  exact ⟨c', l, r, ul, ur, hreach, hl, hr, fun hc => hsh (by rw [hck]; exact hc)⟩
+  obtain ⟨_, hvl, hvr, l, ul, r, ur, hul, hur, _, _, hfl, hck, hsh⟩ := leaf_spec _ _ _ _ _ _ _ _ _ p hleaf
+  have hroot : Inv (root lhs rhs sel) :=
+    inv_nrm lhs none none rhs sel false false [] [] ⟨false, hl, fun e => by cases e⟩ ⟨false, hr, fun e => by cases e⟩
+  have hinv := inv_reach hroot hreach
+  refine ⟨c', l, r, ul, ur, hreach, hul, hur, hfl, fun hil hir => ?_⟩
+  have h1 := side_checked c'.lc c'.lhs l ul c'.ls hinv.l (.inr hinv.np) hvl hul hil
+  obtain ⟨hR, hRp⟩ := strip_side c'.rc c'.rhs c'.rs hinv.r
+  have h2 := side_checked c'.R.1 c'.R.2 r ur c'.rs hR hRp hvr hur hir
+  have hc : p.checked = true := by rw [hck, h1, h2]; simp
+  exact ⟨hc, hsh hc⟩
 
 -- OBLIGATION c40_select : field selection: when both operands have members, assign descends exactly into selNames (COMMON = intersection, LHS = left members, RHS = right members, ALL = union, iterable = its items, mapping = its keys), provided these are non-empty (or both operands have no members) and present on both sides; otherwise it raises; such a pair is never treated as a leaf
 theorem c40_select (lc : Option PCtx) (lhs : Obj) (rc : Option PCtx) (rhs : Obj) (sel : Sel) (lf rf : List Key)
@@ -80,7 +90,7 @@ theorem c40_select (lc : Option PCtx) (lhs : Obj) (rc : Option PCtx) (rhs : Obj)
   ⟨(plan_containers lc lhs rc rhs sel lf rf hl hr).1, (plan_containers lc lhs rc rhs sel lf rf hl hr).2,
     fun n => mem_selNames sel lf rf n⟩
 
--- OBLIGATION c40_err : the raising cases: assign raises iff some selected call fails by itself - its plan raises (no common fields / a selected name missing on a side / ill-formed union assignment / AttributeError of an ArrayProxy over arrays), its leaf statement raises (selection given for non-structures, unsupported operand, shape mismatch), or the right operand or the mapping selection has no entry for a selected member
+-- OBLIGATION c40_err : the raising cases: assign raises iff some selected call fails by itself - its plan raises (no common fields / a selected name missing on a side / ill-formed union assignment), its leaf statement raises (selection given for non-structures, unsupported operand, shape mismatch), or the right operand or the mapping selection has no entry for a selected member
 theorem c40_err (lhs rhs : Obj) (sel : Sel) :
     (∃ e, assign lhs rhs sel = .error e) ↔ ∃ c', Reach (root lhs rhs sel) c' ∧ Fails c' := by
   constructor
@@ -111,11 +121,25 @@ example : (assign exL exR (.mode .common)).toOption.map (·.map (·.lpath)) = so
   refine ⟨by decide, by decide, ?_⟩
   simp [exL, ofLayout, ofStruct, wfObj, wfMembers, Members.keys, fieldObj]
 
-/-- negation witness for the unconditional "equal shapes" (F-b7-1): `assign(Signal(4), Signal(StructLayout({"a": signed(3)})))`
-    produces an unchecked statement from a 3-bit signed member into a 4-bit signal -/
+/-- non-vacuity of the hypothesis of `c40_shapes`: signals over layouts (signed members included) satisfy `okE` -/
+example : okE false exL ∧ okE false exR := by
+  simp [exL, exR, ofLayout, ofStruct, okE, okEM, fieldObj]
+
+def raisesValueError (r : Except Err (List Pair)) : Bool :=
+  match r with
+  | .error .valueError => true
+  | _ => false
+
+/-- regression examples of the two repaired defects: F-b7-1 `assign(Signal(4), Signal(StructLayout({"a": signed(3)})))`
+    now raises (ValueError: shapes differ) in both directions; F-b7-2 an ArrayProxy over views of an ArrayLayout
+    is a container with the index keys -/
 example :
-    (assign (ofLayout (.leaf 4 false) 0 0 true) (ofLayout (.struct (.cons "a" (.leaf 3 true) .nil)) 1 0 true) (.mode .rhs)).toOption
-      = some [⟨[], [.name "a"], false, ⟨none, 0, 0, 4, .bits none 1 0 3 true⟩⟩] := by
+    raisesValueError (assign (ofLayout (.leaf 4 false) 0 0 true)
+      (ofLayout (.struct (.cons "a" (.leaf 3 true) .nil)) 1 0 true) (.mode .rhs)) = true ∧
+    raisesValueError (assign (ofLayout (.struct (.cons "a" (.leaf 3 true) .nil)) 1 0 true)
+      (ofLayout (.leaf 4 false) 0 0 true) (.mode .rhs)) = true ∧
+    ((assign (.proxy 0 [0, 1] (ofLayout (.array (.leaf 2 false) 2) 0 0 true)) (ofLayout (.array (.leaf 2 false) 2) 5 0 true)
+      (.mode .rhs)).toOption.map (·.map (·.lpath))) = some [[.idx 0], [.idx 1]] := by
   decide
 
 end TxV.Assign
@@ -124,7 +148,7 @@ end TxV.Assign
 #print axioms TxV.Assign.c40_complete
 #print axioms TxV.Assign.c40_once
 #print axioms TxV.Assign.c40_same_path
-#print axioms TxV.Assign.c40_shapes_partial
+#print axioms TxV.Assign.c40_shapes
 #print axioms TxV.Assign.c40_select
 #print axioms TxV.Assign.c40_err
 #print axioms TxV.Assign.c40_nested_proxy
